@@ -142,6 +142,7 @@ def run_merge(probes, fill=0):
             try:
                 res['model'] = {
                     'spike_samples': np.array(m.spike_samples), 'amplitudes': np.array(m.amplitudes),
+                    'spike_times': np.array(m.spike_times),
                     'spike_clusters': np.array(m.spike_clusters),
                     'spike_templates': np.array(m.spike_templates),
                     'channel_positions': np.array(m.channel_positions),
